@@ -36,8 +36,8 @@ pub const META_C09: Meta = Meta {
     level: "exploration",
     rule: "Each case is a batch of 24 strings from four sources: (1) token soup - 1-60 tokens from the full token alphabet (every keyword incl. program/init/memory/def/call, every operator incl. ! and ~ in infix position, C X Z, radix and overflowing literals, EOL/CRLF/tab/comment, non-ASCII such as é, emoji, U+0085, combining marks, $, NUL) with and without a valid header in front; (2) mutated valid programs - printer output of generated programs under token deletion / duplication / transposition / replacement, truncation at a random char boundary, an extra C appended past the last column, a reserved keyword inserted at a statement start; (3) the same with LF -> CRLF; (4) shard 0: structured edge cases (empty, blank only, header only +- newline, 1 MB line, 10^5 blank lines, 10^4 columns, 64-deep nesting) and truncation of 40 programs at EVERY char boundary. Oracle per string, under catch_unwind: from_str returns (no panic); on Err every span in ParseError.at satisfies start <= end <= len with both ends on char boundaries; rendering the error with miette's graphical handler and the source attached does not panic and is non-empty. Non-trivial = string has a valid header line (so the body parser is reached) and is not byte-identical to an earlier one.",
     assumptions: &["nesting depth is bounded (<= 64) to stay clear of native stack exhaustion, as the property's quantifier says"],
-    quick_cases: 12_000,
-    thorough_cases: 600_000,
+    quick_cases: 60000,
+    thorough_cases: 1200000,
     floor: 2000,
 };
 
@@ -290,10 +290,10 @@ pub fn c09_exhaustive(tier: &str, acc: &mut Acc) -> Value {
 pub const META_C12: Meta = Meta {
     id: "C12",
     level: "exploration",
-    rule: "Each case takes one generated valid program (accepted by the crate in the same run, so a rejection is due to the edit) and applies every applicable instance of 11 single grammar-breaking edit operators, working on token spans found by the harness tokenizer: M1 delete a block's `end loop`/`end while`; M2 swap `end loop`<->`end while`, bare `end`, `end repeat`; M3 insert `end loop`/`end while` at top level; M4 delete / append one row entry, bits(k+-1,..); M5 delete one `;` `)` `(` `,`; M6 unknown function name, one argument more / fewer; M7 replace a literal by 2^63 / 2^64 in decimal, hex, binary, octal; M8 bits(k,..) with k in {65,100,255,256,10^6}; M9 duplicate a header name, duplicate a declare; M10 header only, no line break; M11 truncate at every token boundary at block depth > 0 or strictly inside a statement - each in three endings {as is, trailing newline added, trailing newlines removed} and in LF and CRLF. A mutant counts only if it is invalid by construction AND the independent recogniser refparse rejects it (so a mistake in either cannot alarm alone); then from_str must return Err. Ok = violation; a panic is C09's business and only counted. Non-trivial = a confirmed-invalid mutant of an accepted parent, distinct by text.",
+    rule: "Each case takes one generated valid program (accepted by the crate in the same run, so a rejection is due to the edit) and applies every applicable instance of 11 single grammar-breaking edit operators, working on token spans found by the harness tokenizer: M1 delete a block's `end loop`/`end while`; M2 swap `end loop`<->`end while`, bare `end`, `end repeat`; M3 insert `end loop`/`end while` at top level; M4 delete / append one row entry, bits(k+-1,..); M5 delete one `;` `)` `(` `,`; M6 unknown function name, one argument more / fewer; M7 replace a literal by 2^63 / 2^64 in decimal, hex, binary, octal; M8 bits(k,..) with k in {65,100,255,256,10^6} and k+256, k+512, k+2^16, k+2^32; M9 duplicate a header name, duplicate a declare; M10 header only, no line break; M11 truncate at every token boundary at block depth > 0 or strictly inside a statement - each in three endings {as is, trailing newline added, trailing newlines removed} and in LF and CRLF. A mutant counts only if it is invalid by construction AND the independent recogniser refparse rejects it (so a mistake in either cannot alarm alone); then from_str must return Err. Ok = violation; a panic is C09's business and only counted. Non-trivial = a confirmed-invalid mutant of an accepted parent, distinct by text.",
     assumptions: &["refparse.rs (recogniser written from the grammar as stated in C08/C12) confirms invalidity", "harness tokenizer reflex.rs locates tokens"],
-    quick_cases: 3_000,
-    thorough_cases: 150_000,
+    quick_cases: 8000,
+    thorough_cases: 200000,
     floor: 2000,
 };
 
@@ -385,6 +385,11 @@ fn mutants(text: &str, r: &mut Prng) -> Vec<Mutant> {
                     let k = reflex::number_value(text, t).unwrap_or(0);
                     for big in ["65", "100", "255", "256", "1000000"] {
                         push("M8-bits-too-wide", splice(t.start, t.end, big), &mut out);
+                    }
+                    // widths that are congruent to the original one modulo a power of two (a
+                    // width stored in a narrow integer before it is validated would wrap)
+                    for m in [256i64, 512, 65536, 1 << 32] {
+                        push("M8-bits-too-wide", splice(t.start, t.end, &(k + m).to_string()), &mut out);
                     }
                     push("M4-bits-plus-one", splice(t.start, t.end, &(k + 1).to_string()), &mut out);
                     if k > 0 {
@@ -531,8 +536,8 @@ pub const META_C20: Meta = Meta {
     level: "exploration",
     rule: "Metamorphic monitor: a base text (generated programs of profiles flow / expr / expand / random-free, plus a pool of token-boundary hazards: identifiers looper end1 bitsy letx, 0x1F next to an identifier, a<<b, a< <b (invalid), a!=b, a! =b (invalid)) and 4 (quick) / 8 (thorough) re-laid-out variants composed at random from: change every blank run between tokens to 1-4 of {space, tab, CR}; delete blank runs where the harness tokenizer certifies the neighbours do not fuse; append # comments (with #, non-ASCII, CR) to lines after the header; insert blank / comment-only lines after the header; LF -> CRLF; rewrite integer literals in another radix / letter case with the same value. Every variant is certified by re-tokenising: its token sequence (kinds + lexemes, numbers by value, blank lines collapsed) must equal the base's, otherwise it is discarded and counted. Oracle: accepted/rejected verdicts equal; every item of the two row streams equal (inputs incl. changed, outputs, expected, errors), except that `line` must be shifted by exactly the number of lines inserted above that row. Non-trivial = variant differs from its base in >= 3 places and the base yields >= 2 rows or is rejected after a valid header.",
     assumptions: &["the harness tokenizer decides what `the same token sequence` means"],
-    quick_cases: 10_000,
-    thorough_cases: 400_000,
+    quick_cases: 40000,
+    thorough_cases: 1000000,
     floor: 500,
 };
 
